@@ -47,6 +47,17 @@ def monitor(run):
         if e['err']:
             if e['err'] == E_SUSP and unacceptable is None and cmds:
                 yield f'tick {t}: admissible suspension rejected'
+            # a rejected request has no effect on a write-out in progress: the remaining ticks of a suspending
+            # container never go up, and it stays where it is
+            after = {c['cid']: c for p in (e.get('pools_after_err') or []) for c in p['suspending']}
+            for p in prev:
+                for c in p['suspending']:
+                    a = after.get(c['cid'])
+                    gone = a is None and c['cid'] not in {x for q in (e.get('pools_after_err') or []) for x in q['suspended']}
+                    if e.get('pools_after_err') is not None and (gone or (a is not None and a['left'] > c['left'])):
+                        yield (f'tick {t}: rejected command ({e.get("exc", "")[:60]}) changed the write-out of suspending '
+                               f'container {c["cid"]}: {c["left"]} ticks left before, '
+                               f'{"container gone" if a is None else str(a["left"]) + " after"}')
             continue
         if unacceptable is not None:
             yield f'tick {t}: suspension of container {unacceptable} accepted although it is not running at an operator boundary'
@@ -156,7 +167,7 @@ def run(ctx):
         ('G-exec-twins', 80, 1200, dict(twins=True)),
         ('G-exec-overlap', 80, 1200, dict(overlap=True)),
         ('G-exec-twins-odd', 60, 1000, dict(twins='odd')),
-        ('G-exec-badsusp', 120, 2000, dict(p_bad=1.0, bad_kinds=['susp-mid', 'susp-mid', 'susp-suspending', 'susp-dup',
+        ('G-exec-badsusp', 120, 2000, dict(p_bad=1.0, bad_kinds=['susp-mid', 'susp-mid', 'susp-suspending', 'susp-suspending', 'susp-suspending', 'susp-dup',
                                                                    'susp-unknown', 'susp-wrongpool'])),
     ], nontrivial=lambda run: any(e['cmd']['susp'] for e in run.trace))
     import collections
